@@ -470,6 +470,11 @@ func RunCheck(t *testing.T, chk Check) int {
 					c.Violate(chk.Prop, "panic", fmt.Sprintf("panic in case goroutine: %v", r), string(debug.Stack()))
 				}
 			}()
+			if fake := os.Getenv("VERIF_FAKE_UNJUDGED"); fake != "" && strings.HasPrefix(cs.ID, fake) {
+				// self-test of the verdict protocol: pretend the environment of these cases did not come up
+				c.Inconclusive("environment did not come up (VERIF_FAKE_UNJUDGED)")
+				return
+			}
 			cs.Run(c)
 		}
 		if cs.Bubble {
